@@ -273,7 +273,11 @@ func NewGen(seed int64, prop string, run int, thorough bool) *Gen {
 	g.nBlocks = br[0] + g.pick(br[1]-br[0]+1)
 	if g.stretch {
 		g.nBlocks = g.nBlocks*3/2 + 20
-		if (thorough && g.chance(0.3)) || g.chance(0.08) {
+		marathon := 0.08
+		if prop == "C16" || prop == "C17" || prop == "C18" {
+			marathon = 0.2 // the properties about per-batch keys, scans and cleanup: batch counters beyond one byte matter most here
+		}
+		if (thorough && g.chance(0.3)) || g.chance(marathon) {
 			g.nBlocks = 290 + g.pick(120) // long enough for the batch counter of an every-block context to pass 256
 		}
 	}
